@@ -239,3 +239,22 @@ def compare(ctx, rule, instance, where, code, ref_poly, ref_dims=None, facts=Non
 
 def specialise_flag(p, k):
     return alg.subst_sym(p, {'valid': lambda labs: Poly.const(k)})
+
+
+def guard_requires(I, candidates):
+    """Is one of the interpreted function's raise-guards the precondition ``P`` for some P in ``candidates`` (polys)?  A guard `if c: raise` contributes
+    the precondition not c, `if c: ... else: raise` the precondition c; conditions are compared as normal forms (so `not np.all(a == b)` and
+    `np.any(a != b)` are the same guard), never as text.  Returns (found, [descriptions of the guards seen])."""
+    seen = []
+    for g in I.assumed:
+        if g[4] != 'raise-guard' or len(g) < 6:
+            continue
+        tv = g[5]
+        seen.append(g[2])
+        if not isinstance(tv, Arr) or tv.ndim != 0 or tv.mask is not None:
+            continue
+        pre = tv.poly if g[3] else alg.b_not(tv.poly)
+        for c in candidates:
+            if alg.is_zero(pre - c)[0]:
+                return True, seen
+    return False, seen
